@@ -12,7 +12,6 @@
 (* that must short-circuit are written with IF.)                           *)
 (***************************************************************************)
 EXTENDS Interp, Json, IOUtils, TLCExt
-VARIABLE l                                  \* position in the recorded trace
 Rec == Inst.events
 
 OutEq(m, r) == m.t = r.t /\ (CASE m.t = "val" -> ValueEq(m.v, r.v) [] m.t = "bool" -> m.b = r.b [] OTHER -> TRUE)
@@ -41,7 +40,7 @@ Matches(m, r) ==
        [] m.e = "Request" -> TRUE
        [] OTHER -> FALSE
 
-TraceInit == Init /\ l = 1
+TraceInit == Init
 TraceNext ==
   /\ l <= Len(Rec)
   /\ Next
